@@ -46,6 +46,9 @@ def res_equal(rr, mr):
         return wire.type_exact_equal(wire.dec(a) if a is not None else None,
                                      wire.dec(b) if b is not None else None)
     re_, me = rr['exc'], mr['exc']
+    if me.get('why') == 'corrupt':
+        # an unreadable cache file: which exception class reports it is not specified
+        return True
     if re_['cls'] != me['cls']:
         return False
     if re_['cls'] == 'UserExc':
@@ -239,6 +242,40 @@ def trace_targets(trace):
     return out
 
 
+def canon_versions(w):
+    from . import dsl
+    v = wire.dec(w) if w is not None else {}
+    return json.dumps({k: dsl.canon(x) for k, x in v.items() if x is not None}, sort_keys=True)
+
+
+def changed_version_names(w_old, w_new):
+    from . import dsl
+    a = wire.dec(w_old) if w_old is not None else {}
+    b = wire.dec(w_new) if w_new is not None else {}
+    out = set()
+    for k in set(a) | set(b):
+        if json.dumps(dsl.canon(a.get(k)), sort_keys=True) != json.dumps(dsl.canon(b.get(k)), sort_keys=True):
+            out.add(k)
+    return out
+
+
+def must_reexecute(trace, names):
+    """from-scratch invocations of the functions in `names` and of everything that transitively calls them"""
+    out = []
+
+    def rec(n):
+        below = False
+        for c in n['ch']:
+            below = rec(c) or below
+        mine = n['f'] in names
+        if (mine or below) and not n['st'].startswith('setup:'):
+            out.append(inv_key([n['f'], n['t'], n['a'], n['k']]))
+        return mine or below
+    for n in trace:
+        rec(n)
+    return out
+
+
 def analyze(case, real, spec):
     """-> (discrepancies, stats).  discrepancy: dict(cat, step, detail)."""
     ds = []
@@ -246,9 +283,11 @@ def analyze(case, real, spec):
              'unchanged_rebuilds': 0, 'obl_cut': 0, 'real_inv': 0, 'spec_inv': 0, 'refused': 0,
              'rollback_checked': 0, 'foreign_checked': 0}
     cache = case['cache']
+    no_spec = bool(case.get('no_spec'))
     targets = static_targets(case['funcs'])
     before = real['init']
     last_commit = None      # the last committed build, if nothing happened since
+    committed_versions = None   # versions of the last committed build (None: no cache)
     rec = None              # the model's record of the last committed build (what the cache file stands for)
     all_contents = set(n[2] for n in real['init'] if n[1] == 'file')
     for i, st in enumerate(case['steps']):
@@ -259,7 +298,10 @@ def analyze(case, real, spec):
             impl_compare(case, i, st, ro, so, ds, all_contents)
         if kind == 'mut':
             stats['muts'] += 1
-            a = tree_view(ro['tree'], cache, targets); b = tree_view(so['tree'], cache, targets)
+            if so.get('impl') is not None:
+                a = tree_view(ro['tree'], cache, set()); b = tree_view(so['impl']['tree'], cache, set())
+            else:
+                a = tree_view(ro['tree'], cache, targets); b = tree_view(so['tree'], cache, targets)
             if a != b and not ds:
                 raise core.HarnessError('external mutation applied differently on the two sides: %s %s'
                                         % (st, tree_diff(a, b)))
@@ -275,10 +317,10 @@ def analyze(case, real, spec):
         if kind == 'build':
             stats['builds'] += 1
             stats['real_inv'] += len(ro['inv']); stats['spec_inv'] += len(so['inv'])
-            if not res_equal(ro['res'], so['res']):
+            if not no_spec and not res_equal(ro['res'], so['res']):
                 ds.append({'cat': 'res', 'step': i, 'detail': {'real': ro['res'], 'spec': so['res']}})
             a = tree_view(ro['tree'], cache, targets); b = tree_view(so['tree'], cache, targets)
-            if a != b:
+            if a != b and not no_spec:
                 d = tree_diff(a, b)
                 if 'exc' in ro['res']:
                     # latitude of C02: old created directories may (or may not) reappear empty
@@ -290,9 +332,11 @@ def analyze(case, real, spec):
                     ds.append({'cat': 'tree', 'step': i, 'detail': d})
             rk = [inv_key(x) for x in ro['inv']]; sk = [inv_key(x) for x in so['inv']]
             extra = multiset_minus(rk, sk)
-            if extra:
+            if extra and not no_spec:
                 ds.append({'cat': 'inv_extra', 'step': i, 'detail': extra[:5]})
             stats['hits'] += max(0, len(sk) - len(rk))
+            if ro.get('contract'):
+                ds.append({'cat': 'contract', 'step': i, 'detail': ro['contract'][:3]})
             if ro.get('tmp_leak'):
                 ds.append({'cat': 'tmp_leak', 'step': i, 'detail': ro['tmp_leak']})
             failed = 'exc' in ro['res']
@@ -311,9 +355,14 @@ def analyze(case, real, spec):
                 # target paths": then a recorded existence answer legitimately changes
                 if last_commit is not None and last_commit.get('overwrote_foreign'):
                     last_commit = None
+                # a path that is a directory for one call and a file for another call of the same build
+                # (one of them failing) forces the library to move an output aside: not an unchanged rebuild
+                tt = sorted(trace_targets(so.get('trace', [])))
+                if any(b.startswith(a + '/') for a in tt for b in tt):
+                    last_commit = None
                 if (last_commit is not None and json.dumps(last_commit['spec']['trace'], sort_keys=True) ==
                         json.dumps(so['trace'], sort_keys=True) and last_commit['spec']['res'] == so['res']
-                        and last_commit['versions'] == st[2]):
+                        and canon_versions(last_commit['versions']) == canon_versions(st[2])):
                     stats['unchanged_rebuilds'] += 1
                     unj = multiset_minus(rk, justified_unchanged(so['trace']))
                     if unj:
@@ -326,6 +375,15 @@ def analyze(case, real, spec):
                                      and n[0] not in reexec_targets and bmap[n[0]][3:5] != n[3:5]]
                         if rewritten:
                             ds.append({'cat': 'rewritten', 'step': i, 'detail': rewritten})
+                # C06: a changed version re-executes the function and all its transitive callers
+                if committed_versions is not None:
+                    names = changed_version_names(committed_versions, st[2])
+                    if names:
+                        stats['version_changes'] = stats.get('version_changes', 0) + 1
+                        missing = multiset_minus(must_reexecute(so.get('trace', []), names), rk)
+                        if missing:
+                            ds.append({'cat': 'version_not_reexecuted', 'step': i, 'detail': {'changed': sorted(names), 'missing': missing[:5]}})
+                committed_versions = st[2]
                 bfiles = set(n[0] for n in before if n[1] == 'file')
                 last_commit = {'spec': so, 'versions': st[2],
                                'overwrote_foreign': bool((trace_targets(so.get('trace', [])) & bfiles) - old_outputs)}
@@ -338,8 +396,25 @@ def analyze(case, real, spec):
             if a != b:
                 ds.append({'cat': 'clean_tree', 'step': i, 'detail': tree_diff(a, b)})
             last_commit = None
+            if 'ok' in ro['res'] and rec is not None:
+                committed_versions = None
             managed = {cache} | old_outputs
             failed = False
+        # C15: a call the model refuses (unreadable / foreign / misnamed cache, cache path a directory)
+        # raises before changing anything: bit-identical tree, no user function called
+        sres = so.get('res', {})
+        if 'exc' in sres and (sres['exc'].get('why') in ('corrupt', 'nameMismatch') or
+                              (sres['exc'].get('cls') == 'IsADirectoryError' and not so.get('inv') and not so.get('trace'))):
+            stats['refused'] += 1
+            problems = {}
+            if 'exc' not in ro['res']:
+                problems['did_not_raise'] = ro['res']
+            if ro['tree'] != before:
+                problems['tree'] = [x for x in ro['tree'] if x not in before][:3] + [x for x in before if x not in ro['tree']][:3]
+            if ro.get('inv'):
+                problems['called'] = ro['inv'][:3]
+            if problems:
+                ds.append({'cat': 'refused_effect', 'step': i, 'detail': problems})
         # C03: files outside the managed set keep bytes/mtime/inode; directories that no build
         # recorded as created survive (a rolled-back build is covered in full by rollback_diff)
         stats['foreign_checked'] += 1
